@@ -38,8 +38,7 @@ STEP_G = r'''
 open SCoda.HeapLib in
 def gorc (o : Orc) (barPad : List Msg → Option Msg) : GOrc :=
   { orc := { o with padMsg := fun t v => match barPad v with | some m => some m | none => o.padMsg t v }
-    barPadDec := fun _ v => (barPad v).isSome
-    program := fun _ _ => none }
+    barPadDec := fun _ v => (barPad v).isSome }
 
 open SCoda.HeapLib in
 /-- run a generated function; its result cells are appended to the environment -/
@@ -72,7 +71,7 @@ def stepG (o : Orc) (g : GOrc) (op : HOp) (st : Heap × List Cell) : Except Stri
     | none => .ok st
   | .newSeq => runG st (do let s ← newSequence; HeapFns.sequenceInit g 0 s none none; pure s) (fun r => [(.seq, r)])
   | .mkBar i num den key tag => match look env .seq i with
-    | some s => runG st (do let b ← newBarObj; HeapFns.barInit g tag b s num den key 0; pure b) (fun r => [(.bar, r)])
+    | some s => runG st (do let b ← newBarObj; HeapFns.barInit g tag b s num den key; pure b) (fun r => [(.bar, r)])
     | none => .ok st
   | .mkTrk is name tag => match looks env .bar is with
     | some bs => runG st (do let t ← newTrack; HeapFns.trackInit g tag t bs name; pure t) (fun r => [(.trk, r)])
